@@ -31,6 +31,11 @@ Theorem C20_render_parse_list : forall ts, Forall names_ok ts -> parse_html (ren
 Proof. exact render_parse_list. Qed.
 Print Assumptions C20_render_parse_list.
 
+(* The executable form the harness evaluates on arbitrary trees built with nested Html.element calls. *)
+Theorem C20_reads_back : forall t, names_ok t -> reads_back t = true.
+Proof. exact reads_back_true. Qed.
+Print Assumptions C20_reads_back.
+
 (* The defect this property was written for, on the model: a key written verbatim is markup, the same key written as text is text. *)
 Theorem C20_raw_key_refuted :
   parse_html (render (El s_span [] [] [Raw s_k_i])) = None /\
